@@ -496,3 +496,64 @@ func runC09Scenario(rec *Recorder, sc c09Scenario) {
 	bg.Stop()
 	h.Final()
 }
+
+// TestDriveC09Restore: the regulation of a fan ends with a control error (its curve cannot be evaluated any more) and the
+// device then refuses EVERY write of the restore sequence. Nothing can bring such a fan to full speed (which is why C03
+// excludes the case), but fan2go must still not end abruptly: Run returns without an error (the daemon's actor panics on any
+// error a controller returns) and nothing panics. Only C09_NoCrash is evaluated on these runs.
+func TestDriveC09Restore(t *testing.T) {
+	out := os.Getenv("VERIF_OUT")
+	if out == "" {
+		t.Skip("VERIF_OUT not set")
+	}
+	seed := int64(envInt("VERIF_SEED", 1))
+	n := envInt("VERIF_N", 6)
+	rec, err := NewRecorder(out)
+	must(err)
+	rec.Sync = true
+	defer rec.Close()
+	r := rand.New(rand.NewSource(seed))
+	for i := 0; i < n; i++ {
+		sseed := r.Int63()
+		synctest.Test(t, func(t *testing.T) {
+			r := rand.New(rand.NewSource(sseed))
+			dir := scratchDir("verif.c09r.")
+			defer os.RemoveAll(dir)
+			rf := RunFan{ID: "f1", CurveErrAt: 2 + r.Intn(4), Rest: [3]string{"fail", "fail", "fail"}, Pwm0: r.Intn(256), Mode0: []int{1, 2, 2, 5}[r.Intn(4)], Quant: 1, Theta: 10}
+			rf.Spec = FanSpec{Kind: []string{"hwmon", "hwmon", "file"}[r.Intn(3)], HasRpm: r.Intn(2) == 0, HasMode: r.Intn(2) == 0, NeverStop: r.Intn(2) == 0, N: 10, Alg: AlgSpec{T: "direct"}}
+			if rf.Spec.Kind == "file" {
+				rf.Spec.HasMode = false
+			}
+			m := map[int]int{}
+			for v := 0; v <= 255; v++ {
+				m[v] = v
+			}
+			rf.Spec.CfgMap = m
+			cfg := RunCfg{Parallel: true, Dir: dir, Fans: []RunFan{rf}, TickMs: 200, RpmPollMs: 1000, Window: 10}
+			cfg.CurveValue = func(n int) int { return 100 }
+			rec.NextTrace()
+			h := NewRunHarness(rec, cfg)
+			defer h.Close(false)
+			ctx, cancel := context.WithCancel(context.Background())
+			defer cancel()
+			bg := &bgTasks{done: make(chan struct{})}
+			h.OnEvent = func(n int, fanId, event string) {
+				if event == "RestoreEnd" {
+					bg.After(2*time.Second, func() {
+						rec.Emit(Ev{"ev": "Cancel", "why": "regulation ended"})
+						cancel()
+					})
+				}
+			}
+			bg.After(5*time.Minute, func() {
+				rec.Emit(Ev{"ev": "Cancel", "why": "timeout"})
+				cancel()
+			})
+			h.Start(ctx, Ev{"scenario": Ev{"c09restore": true}})
+			h.Wait()
+			cancel()
+			bg.Stop()
+			h.Final()
+		})
+	}
+}
